@@ -186,7 +186,17 @@ class InvBuilder(object):
             out = [(n, f) for n, f in out if any(n.startswith(o) for o in only)]
         return out
 
-    def same(self, heap0, heap1, fields):
+    def same_except(self, heap0, heap1, exceptions):
+        """frame: like same(), but the (field, reference term) pairs in `exceptions` may change"""
+        out = []
+        exc = {}
+        for f, rt in exceptions:
+            exc.setdefault(f, []).append(rt)
+        for name, formula in self.same(heap0, heap1, [], exc):
+            out.append((name, formula))
+        return out
+
+    def same(self, heap0, heap1, fields, exc=None):
         """Every field of every object allocated in heap0 is unchanged in heap1 (frame / C06)."""
         nxt0 = heap0.get('next') or const('H0_next', INT)
         out = []
@@ -198,7 +208,10 @@ class InvBuilder(object):
             a1 = heap1.get(k) or const('H0_' + k[2:], AIV)
             if a0 == a1:
                 continue
-            out.append(('Same.' + k[2:], Forall([r], Implies(And(Le(intlit(1), r), Lt(r, nxt0)),
+            guard = [Le(intlit(1), r), Lt(r, nxt0)]
+            for rt in (exc or {}).get(k[2:], []):
+                guard.append(Not(Eq(r, rt)))
+            out.append(('Same.' + k[2:], Forall([r], Implies(And(*guard),
                                                               Eq(Select(a1, r), Select(a0, r))))))
         for k, dn, srt in (('llen', 'H0_llen', AI), ('litem', 'H0_litem', '(Array Int (Array Int Val))')):
             a0 = heap0.get(k) or const(dn, srt)
